@@ -672,7 +672,6 @@ func ruleOptions(c *Ctx) {
 	}
 }
 
-
 // ruleDeadThreadPush: threadRun's deferred recover pushes the error value on the dying thread before
 // handing it to the resumer. If the thread died of a registry overflow that push overflows again —
 // inside the deferred function — and the hand-over (CurrentThread, Parent, kill) never happens (F33).
